@@ -31,30 +31,34 @@ HCall(e) ==
   ELSE IF e.api \in {"search", "lsearch", "gai", "ghbn", "ghba", "gni"} THEN Stop
   ELSE cnow' = e.now /\ UNCHANGED <<ccfg, cache, cq, csrv, xv>> /\ Acc
 
-RECURSIVE NoteFrames(_, _, _, _)
-NoteFrames(qq, frames, i, tcp) ==
+RECURSIVE NoteFrames(_, _, _, _, _)
+NoteFrames(qq, frames, i, tcp, fd) ==
   IF i > Len(frames) THEN qq
   ELSE LET f == frames[i]
-           rec == [key |-> Key(f.kname, f.qt, f.rd, f.cd), lname |-> f.lname, name |-> f.name, qt |-> f.qt, tcp |-> tcp]
-       IN IF f.bad = 1 THEN NoteFrames(qq, frames, i + 1, tcp)
-          ELSE NoteFrames(IF f.qid \in DOMAIN qq THEN [qq EXCEPT ![f.qid] = rec] ELSE qq @@ (f.qid :> rec), frames, i + 1, tcp)
+           rec == [key |-> Key(f.kname, f.qt, f.rd, f.cd), lname |-> f.lname, name |-> f.name, qt |-> f.qt, tcp |-> tcp, fd |-> fd]
+       IN IF f.bad = 1 THEN NoteFrames(qq, frames, i + 1, tcp, fd)
+          ELSE NoteFrames(IF f.qid \in DOMAIN qq THEN [qq EXCEPT ![f.qid] = rec] ELSE qq @@ (f.qid :> rec), frames, i + 1, tcp, fd)
 
 MarkSent == cur' = [i \in 1..Len(cur) |-> IF i = Len(cur) THEN [cur[i] EXCEPT !.sent = TRUE] ELSE cur[i]]
 
-Matches(p) == /\ p.parse = 1 /\ p.qid \in DOMAIN cq
+(* a response can only be accepted for a query that is still outstanding (cq holds the wire queries transmitted and
+   not yet answered with a final answer) and on the connection of its latest transmission *)
+Matches(p) == /\ p.parse = 1 /\ p.qid \in DOMAIN cq /\ p.fd = cq[p.qid].fd
               /\ p.qt = cq[p.qid].qt /\ p.qc = 1
               /\ (IF ccfg.dns0x20 = 1 /\ ~cq[p.qid].tcp THEN p.name = cq[p.qid].name ELSE p.lname = cq[p.qid].lname)
 
 HSk(e) ==
   CASE e.op = "send" /\ Len(e.frames) > 0 ->
-         /\ cq' = IF e.res = "ok" THEN NoteFrames(cq, e.frames, 1, e.tcp = 1) ELSE cq
+         /\ cq' = IF e.res = "ok" THEN NoteFrames(cq, e.frames, 1, e.tcp = 1, e.fd) ELSE cq
          /\ (IF Len(cur) > 0 THEN MarkSent ELSE UNCHANGED cur)
          /\ UNCHANGED <<ccfg, cnow, cache, csrv, creq>> /\ Acc
     [] e.op = "recv" /\ e.res = "ok" /\ "pid" \in DOMAIN e ->
          IF e.fromok = 1 /\ Matches(e) /\ Cacheable(e)
          THEN /\ cache' = (IF cq[e.qid].key \in DOMAIN cache THEN [cache EXCEPT ![cq[e.qid].key] = Entry(e, e.pid)]
                            ELSE cache @@ (cq[e.qid].key :> Entry(e, e.pid)))
-              /\ UNCHANGED <<ccfg, cnow, cq, csrv, xv>> /\ Acc
+              \* a cacheable answer is a final answer: the query is over, later copies are not looked at
+              /\ cq' = [x \in (DOMAIN cq) \ {e.qid} |-> cq[x]]
+              /\ UNCHANGED <<ccfg, cnow, csrv, xv>> /\ Acc
          ELSE Skip
     [] e.op = "recv" /\ e.res = "ok" /\ "stream" \in DOMAIN e -> Stop      \* TCP answers: see C20; not needed for cache rules
     [] OTHER -> Skip
